@@ -586,6 +586,36 @@ type Val struct {
 	Num  float64 `json:"num,omitempty"`
 	Str  h.Str   `json:"str,omitempty"`
 	Spec string  `json:"spec,omitempty"` // inf -inf nan for num
+	// what happens to the value before it is compared: "" nothing; copy / elem / param: assigned to a variable, an
+	// array element, passed through a function (the value keeps its kind); sub^ / gsub$: the target of a
+	// substitution that matches the empty string and replaces it by nothing (the text is unchanged, the value is a
+	// string from then on); cat: concatenated with "" (a string); plus0: + 0 (a number)
+	Via string `json:"via,omitempty"`
+}
+
+var vias = []string{"", "", "", "", "copy", "elem", "param", "sub^", "gsub$", "cat", "plus0"}
+
+// setup returns the statements that prepare the operand and the expression that stands for it afterwards
+func (v Val) setup(field int) (stmts, expr string) {
+	src := v.source(field)
+	name := fmt.Sprintf("via%d_", field)
+	switch v.Via {
+	case "copy":
+		return fmt.Sprintf(" %s = %s\n", name, src), name
+	case "elem":
+		return fmt.Sprintf(" viaarr_[%d] = %s\n", field, src), fmt.Sprintf("viaarr_[%d]", field)
+	case "param":
+		return "", "ident_(" + src + ")"
+	case "sub^":
+		return fmt.Sprintf(" %s = %s; sub(/^/, \"\", %s)\n", name, src, name), name
+	case "gsub$":
+		return fmt.Sprintf(" %s = %s; gsub(/$/, \"\", %s)\n", name, src, name), name
+	case "cat":
+		return "", "(" + src + " \"\")"
+	case "plus0":
+		return "", "(" + src + " + 0)"
+	}
+	return "", src
 }
 
 type PairCase struct {
@@ -629,7 +659,10 @@ func genPair(t *rapid.T) PairCase {
 		}
 		return c
 	}
-	return PairCase{A: genVal(t), B: genVal(t)}
+	c := PairCase{A: genVal(t), B: genVal(t)}
+	c.A.Via = rapid.SampledFrom(vias).Draw(t, "viaA")
+	c.B.Via = rapid.SampledFrom(vias).Draw(t, "viaB")
+	return c
 }
 
 func (v Val) source(field int) string {
@@ -657,6 +690,24 @@ func (v Val) source(field int) string {
 
 // numeric value and whether the value takes part in comparisons as a number
 func (v Val) model() (isNum bool, n float64, s string) {
+	isNum, n, s = v.base()
+	if v.Kind == "num" {
+		s = numToStr(n)
+	}
+	switch v.Via {
+	case "sub^", "gsub$", "cat":
+		return false, 0, s
+	case "plus0":
+		switch v.Kind {
+		case "str", "field":
+			n = prefixValue(s)
+		}
+		return true, n, numToStr(n)
+	}
+	return isNum, n, s
+}
+
+func (v Val) base() (isNum bool, n float64, s string) {
 	switch v.Kind {
 	case "num":
 		switch v.Spec {
@@ -696,14 +747,15 @@ func numToStr(n float64) string {
 
 func runPair(x *h.Ctx, c PairCase) string {
 	for _, v := range []Val{c.A, c.B} {
-		if v.Kind == "field" && classify(string(v.Str)) == dontCare {
+		if (v.Kind == "field" || v.Kind == "str" && v.Via == "plus0") && classify(string(v.Str)) == dontCare {
 			x.Discard("don't-care field text")
 			return ""
 		}
 	}
-	a, b := c.A.source(1), c.B.source(2)
+	sa_, a := c.A.setup(1)
+	sb_, b := c.B.setup(2)
 	var sb strings.Builder
-	sb.WriteString("BEGIN { FS = \"\\001\" } {\n v_ = \"\"; j_ = \"\"; t_ = \"\"; w_ = \"\"\n")
+	sb.WriteString("function ident_(p) { return p }\nBEGIN { FS = \"\\001\" } {\n v_ = \"\"; j_ = \"\"; t_ = \"\"; w_ = \"\"\n" + sa_ + sb_)
 	for _, pr := range [][2]string{{a, b}, {b, a}} {
 		for _, op := range ops {
 			fmt.Fprintf(&sb, " v_ = v_ (%s %s %s)\n", pr[0], op, pr[1])
@@ -746,12 +798,7 @@ func runPair(x *h.Ctx, c PairCase) string {
 	var want strings.Builder
 	numeric := an && bn
 	sa, sb2 := as, bs
-	if c.A.Kind == "num" {
-		sa = numToStr(av)
-	}
-	if c.B.Kind == "num" {
-		sb2 = numToStr(bv)
-	}
+
 	for _, pr := range [][2]int{{0, 1}, {1, 0}} {
 		for _, op := range ops {
 			var r bool
